@@ -5,8 +5,9 @@ Fault enumeration (level P) over whole real loads (see lifecycle.py): every
 scope-provider / object-processor / model-processor call raises once
 (RuntimeError-like and TextXSemanticError flavours), plus loads failing by
 themselves (syntax error, unknown reference; main or imported file), with user
-classes on, single- and multi-file models, with and without a global
-repository.  After every failing path:
+classes on, single- and multi-file models, main model from a file or from a
+string with the other files reached through a global-repository provider, with
+and without a global repository.  After every failing path:
   * weak references to every model object seen by a callback or created as a
     user object are dead after gc.collect() once the exception is dropped
     (a concrete observation per path; the symbolic dimension is the fault point);
@@ -55,7 +56,7 @@ def main():
     chk = Check(PROP, 'fault_enumeration')
     quick = chk.tier == 'quick'
     items = []
-    for case in ('single', 'two-files', 'cycle'):
+    for case in ('single', 'two-files', 'cycle', 'string-global'):
         for grepo in (False, True):
             for kind in (('runtime',) if quick else ('runtime', 'textx')):
                 items.append((case, 'plain', grepo, True, False, kind))
